@@ -12,6 +12,7 @@ Variables lower upper : str -> str.
 Variable parse_tree : mapper -> tz -> res (option T * mapper * tz).
 Variable set_label : T -> option str -> T.
 Variable add_comments : T -> list str -> T.
+Variables va vk : bool.
 
 Hypothesis H_consumes : forall m z ot m' z',
   parse_tree m z = Ok (ot, m', z') -> exists pre, z_toks z = pre ++ z_toks z'.
@@ -43,13 +44,13 @@ Qed.
 
 Lemma S_routes_agree_nexus : forall (ns0 : list str) (d : doc) ts ns,
   (forall t, In t (fst d) -> is_sets_kw (Some (upper (t_text t))) = false) ->
-  treelist_read T lower upper parse_tree set_label add_comments Nexus ns0 d = Ok (ts, ns) ->
+  treelist_read T lower upper parse_tree set_label add_comments va Nexus ns0 d = Ok (ts, ns) ->
   yield_from_files T lower upper parse_tree set_label add_comments Nexus ns0 d = (ts, Ok ns)
   /\ (forall k, treearray_read T lower upper parse_tree set_label add_comments Nexus k ns0 d
                 = (skipn (Z.to_nat k) ts, Ok ns)).
 Proof.
   intros ns0 d ts ns N H.
-  pose proof (routes_agree_nexus_l T lower upper parse_tree set_label add_comments H_consumes H_upper ns0 d ts ns (nosets_of d N) H) as Y.
+  pose proof (routes_agree_nexus_l T lower upper parse_tree set_label add_comments va H_consumes H_upper ns0 d ts ns (nosets_of d N) H) as Y.
   split; [exact Y|]. intros k. rewrite treearray_l, Y. reflexivity.
 Qed.
 
@@ -57,54 +58,54 @@ Lemma S_dataset_blocks_concat : forall (d : doc),
   (forall t, In t (fst d) -> is_sets_kw (Some (upper (t_text t))) = false) ->
   (* one list per collection (what Tree.get and TreeList.get(collection_offset=..) parse) and the
      single list of TreeList.get: exact, errors included *)
-  match read_blocks T lower upper parse_tree set_label add_comments Nexus cfg_blocks [] d with
-  | Ok (blocks, ns) => treelist_get T lower upper parse_tree set_label add_comments Nexus d = Ok (concat blocks, ns)
-  | Err e => treelist_get T lower upper parse_tree set_label add_comments Nexus d = Err e
-  | OutOfFuel => treelist_get T lower upper parse_tree set_label add_comments Nexus d = OutOfFuel
+  match read_blocks T lower upper parse_tree set_label add_comments Nexus (cfg_blocks va) [] d with
+  | Ok (blocks, ns) => treelist_get T lower upper parse_tree set_label add_comments va Nexus d = Ok (concat blocks, ns)
+  | Err e => treelist_get T lower upper parse_tree set_label add_comments va Nexus d = Err e
+  | OutOfFuel => treelist_get T lower upper parse_tree set_label add_comments va Nexus d = OutOfFuel
   end
   /\
   (* DataSet.get(taxon_namespace=ns): whenever TreeList.get succeeds *)
-  (forall ts ns, treelist_get T lower upper parse_tree set_label add_comments Nexus d = Ok (ts, ns) ->
+  (forall ts ns, treelist_get T lower upper parse_tree set_label add_comments va Nexus d = Ok (ts, ns) ->
      exists blocks, dataset_get T lower upper parse_tree set_label add_comments Nexus true d = Ok blocks
                     /\ concat blocks = ts).
 Proof.
   intros d N. split.
-  - exact (blocks_vs_list_l T lower upper parse_tree set_label add_comments H_consumes H_upper d (nosets_of d N)).
+  - exact (blocks_vs_list_l T lower upper parse_tree set_label add_comments va H_consumes H_upper d (nosets_of d N)).
   - intros ts ns H.
-    exact (dataset_attached_l T lower upper parse_tree set_label add_comments H_consumes H_upper d ts ns (nosets_of d N) H).
+    exact (dataset_attached_l T lower upper parse_tree set_label add_comments va H_consumes H_upper d ts ns (nosets_of d N) H).
 Qed.
 
 Lemma S_offset_selection : forall (d : doc),
   (forall t, In t (fst d) -> is_sets_kw (Some (upper (t_text t))) = false) ->
   forall blocks ns,
-  read_blocks T lower upper parse_tree set_label add_comments Nexus cfg_blocks [] d = Ok (blocks, ns) ->
-  treelist_get T lower upper parse_tree set_label add_comments Nexus d = Ok (concat blocks, ns)
-  /\ (forall c k, tree_get T lower upper parse_tree set_label add_comments Nexus c k d
-                  = select_tree T set_label blocks (match c with Some c => c | None => 0 end)
+  read_blocks T lower upper parse_tree set_label add_comments Nexus (cfg_blocks va) [] d = Ok (blocks, ns) ->
+  treelist_get T lower upper parse_tree set_label add_comments va Nexus d = Ok (concat blocks, ns)
+  /\ (forall c k, tree_get T lower upper parse_tree set_label add_comments va vk Nexus c k d
+                  = select_tree T set_label vk blocks (match c with Some c => c | None => 0 end)
                                 (match k with Some k => k | None => 0 end))
   /\ (forall (c k : nat) b t, nth_error blocks c = Some b -> nth_error b k = Some t ->
-        tree_get T lower upper parse_tree set_label add_comments Nexus (Some (Z.of_nat c)) (Some (Z.of_nat k)) d
-        = Ok (set_label t None)
+        tree_get T lower upper parse_tree set_label add_comments va vk Nexus (Some (Z.of_nat c)) (Some (Z.of_nat k)) d
+        = Ok (got_label T set_label vk t)
         /\ nth_error (concat blocks) (length (concat (firstn c blocks)) + k) = Some t)
   /\ (forall c k, (c <> None \/ k <> None) ->
-        treelist_get_off T lower upper parse_tree set_label add_comments Nexus c k d
+        treelist_get_off T lower upper parse_tree set_label add_comments va Nexus c k d
         = select_offsets T blocks (match c with Some c => c | None => 0 end) k).
 Proof.
   intros d N blocks ns H.
-  exact (offset_selection_nexus_l T lower upper parse_tree set_label add_comments H_consumes H_upper d (nosets_of d N) blocks ns H).
+  exact (offset_selection_nexus_l T lower upper parse_tree set_label add_comments va vk H_consumes H_upper d (nosets_of d N) blocks ns H).
 Qed.
 
 (* what select_tree / select_offsets compute: Python indexing, spelled out *)
 Lemma S_select_tree_cases : forall (blocks : list (list T)) (c k : Z),
-  (blocks = [] -> select_tree T set_label blocks c k = Err ValueErr)
+  (blocks = [] -> select_tree T set_label vk blocks c k = Err ValueErr)
   /\ (blocks <> [] -> (Z.of_nat (length blocks) <= c \/ c < - Z.of_nat (length blocks)) ->
-        select_tree T set_label blocks c k = Err IndexErr)
+        select_tree T set_label vk blocks c k = Err IndexErr)
   /\ (forall (i : nat) b, nth_error blocks i = Some b -> (c = Z.of_nat i \/ c = Z.of_nat i - Z.of_nat (length blocks)) ->
-        (b = [] -> select_tree T set_label blocks c k = Err ValueErr)
+        (b = [] -> select_tree T set_label vk blocks c k = Err ValueErr)
         /\ (b <> [] -> (Z.of_nat (length b) <= k \/ k < - Z.of_nat (length b)) ->
-              select_tree T set_label blocks c k = Err IndexErr)
+              select_tree T set_label vk blocks c k = Err IndexErr)
         /\ (forall (j : nat) t, nth_error b j = Some t -> (k = Z.of_nat j \/ k = Z.of_nat j - Z.of_nat (length b)) ->
-              select_tree T set_label blocks c k = Ok (set_label t None))).
+              select_tree T set_label vk blocks c k = Ok (got_label T set_label vk t))).
 Proof.
   intros blocks c k. rewrite select_tree_spec.
   assert (IDX : forall A (l : list A) (i : nat) x z, nth_error l i = Some x ->
@@ -147,26 +148,26 @@ Proof.
   repeat split; assumption.
 Qed.
 
-Lemma S_read_twice : forall T lower upper parse_tree set_label add_comments sch ns0 d,
-  treelist_read_twice T lower upper parse_tree set_label add_comments sch ns0 d =
-  match treelist_read T lower upper parse_tree set_label add_comments sch ns0 d with
-  | Ok (_, ns1) => treelist_read T lower upper parse_tree set_label add_comments sch ns1 d
+Lemma S_read_twice : forall T lower upper parse_tree set_label add_comments va sch ns0 d,
+  treelist_read_twice T lower upper parse_tree set_label add_comments va sch ns0 d =
+  match treelist_read T lower upper parse_tree set_label add_comments va sch ns0 d with
+  | Ok (_, ns1) => treelist_read T lower upper parse_tree set_label add_comments va sch ns1 d
   | Err e => Err e
   | OutOfFuel => OutOfFuel
   end.
 Proof.
   intros. unfold treelist_read_twice.
-  destruct (treelist_read T lower upper parse_tree set_label add_comments sch ns0 d) as [[ts ns1]|e|]; reflexivity.
+  destruct (treelist_read T lower upper parse_tree set_label add_comments va sch ns0 d) as [[ts ns1]|e|]; reflexivity.
 Qed.
 
-Lemma S_newick_grows : forall T lower upper parse_tree set_label add_comments,
+Lemma S_newick_grows : forall T lower upper parse_tree set_label add_comments va,
   (forall m z ot m' z', parse_tree m z = Ok (ot, m', z') -> exists r, m_ns m' = m_ns m ++ r) ->
   forall ns0 d ts ns1,
-  treelist_read T lower upper parse_tree set_label add_comments Newick ns0 d = Ok (ts, ns1) ->
+  treelist_read T lower upper parse_tree set_label add_comments va Newick ns0 d = Ok (ts, ns1) ->
   exists r, ns1 = ns0 ++ r.
 Proof.
-  intros T lower upper parse_tree set_label add_comments H ns0 d ts ns1 E.
-  exact (newick_read_grows T lower upper parse_tree set_label add_comments H ns0 d ts ns1 E).
+  intros T lower upper parse_tree set_label add_comments va H ns0 d ts ns1 E.
+  exact (newick_read_grows T lower upper parse_tree set_label add_comments va H ns0 d ts ns1 E).
 Qed.
 
 (* the hypotheses are satisfiable: the skeleton parser and ASCII upper-casing of the correspondence run *)
